@@ -43,7 +43,10 @@ fn one<X: Sx>(ctx: &Ctx, idx: u64, l: usize, m: usize, mode: Mode, exhaustive: b
             (Some(b), Some(bf))
         }
     };
-    let s = ctx.call("blind_sign", &base, None, || BSig::<X>::blind_sign(&sk, &pk, cwp.as_deref(), hdr.as_opt(), m_opt));
+    // "no commitment" may be spelled None or as the empty octet string
+    let empty: Vec<u8> = vec![];
+    let cwp_arg: Option<&[u8]> = if mode == Mode::NoCommitment && idx % 2 == 1 { Some(&empty) } else { cwp.as_deref() };
+    let s = ctx.call("blind_sign", &base, None, || BSig::<X>::blind_sign(&sk, &pk, cwp_arg, hdr.as_opt(), m_opt));
     let Some(bsig) = s.value else {
         ctx.violation("C05:blind_sign-failed", detail("blind_sign", &s.outcome));
         return;
@@ -144,7 +147,7 @@ pub fn scenarios(ctx: &Ctx) -> Vec<Scenario> {
         v.push(scenario(format!("sha/L{l}/M{m}/{mode:?}"), move |c| one::<Sha>(c, i, l, m, mode, ex)));
         v.push(scenario(format!("shake/L{l}/M{m}/{mode:?}"), move |c| one::<Shake>(c, i, l, m, mode, ex)));
     };
-    let big: &[(usize, usize)] = ctx.t(&[(0, 5), (10, 0), (10, 5), (1, 17), (33, 2), (40, 24), (2, 70), (170, 1), (1, 130), (63, 0), (64, 0), (30, 33)][..], &[(0, 5), (10, 0), (10, 5), (1, 17), (33, 2), (5, 5), (100, 10), (2, 64), (256, 1), (0, 33)][..]);
+    let big: &[(usize, usize)] = ctx.t(&[(0, 5), (10, 0), (10, 5), (1, 17), (33, 2), (40, 24), (2, 70), (170, 1), (1, 130), (63, 0), (64, 0), (30, 33), (31, 0), (62, 0), (65, 1), (126, 0), (127, 0), (3, 127), (5, 128), (255, 0)][..], &[(0, 5), (10, 0), (10, 5), (1, 17), (33, 2), (5, 5), (100, 10), (2, 64), (256, 1), (0, 33)][..]);
     for &(l, m) in big {
         push(&mut v, l, m, Mode::Commit, false);
         if m == 0 {
